@@ -111,7 +111,7 @@ func init() {
 	})
 
 	register(&Rule{
-		ID: "C17.R9", Props: []string{"C17"}, Min: 2,
+		ID: "C17.R9", Props: []string{"C17", "C01"}, Min: 2,
 		Doc: "a missing key is absent in every kind of map: in the step resolver a value read from a map by plain indexing (no comma-ok) is only returned when the map's element type is an interface — for map[string]any a missing key yields nil, which the caller reads as absent, but for map[string]string it yields \"\", which would be reported as found",
 		Run: func(p *Prog, c *Ctx) {
 			fn := p.MustFn("(*vuego.Stack).resolveStep")
@@ -707,6 +707,15 @@ func init() {
 					}
 				}
 			}
+			// … or the argument is a string that grows by concatenation (current += text[i:i+1])
+			eachInstr(fn, func(in ssa.Instruction) {
+				if bo, ok := in.(*ssa.BinOp); ok && bo.Op == token.ADD && isString(bo.Type()) {
+					if h := loopHeaderOf(bo.Block()); h != nil {
+						loop = h
+						writes = append(writes, bo)
+					}
+				}
+			})
 			if loop == nil {
 				undecided("parseArgs has no scanning loop that writes characters")
 			}
@@ -1038,24 +1047,21 @@ func init() {
 			n := 0
 			for _, r := range returnsOf(fn) {
 				v := r.Results[0]
-				// "layouts/" + X + ".vuego"
-				bo, ok := v.(*ssa.BinOp)
-				if !ok || bo.Op != token.ADD {
+				// "layouts/" + X + ".vuego" (a chain of +, or the same pieces written into a strings.Builder)
+				parts := concatParts(v)
+				if len(parts) != 3 {
 					continue
 				}
-				if s, ok := constString(bo.Y); !ok || s != ".vuego" {
+				if s, ok := constString(parts[2]); !ok || s != ".vuego" {
 					continue
 				}
-				inner, ok := bo.X.(*ssa.BinOp)
-				if !ok {
+				if s, ok := constString(parts[0]); !ok || !strings.HasPrefix(s, "layouts") {
 					continue
 				}
-				if s, ok := constString(inner.X); !ok || !strings.HasPrefix(s, "layouts") {
-					continue
-				}
+				middle := parts[1]
 				n++
 				stripped := false
-				for _, o := range p.origins(inner.Y, OriginOpts{}) {
+				for _, o := range p.origins(middle, OriginOpts{}) {
 					if cl, ok := o.(*ssa.Call); ok {
 						switch calleeName(&cl.Call) {
 						case "strings.TrimSuffix", "strings.CutSuffix":
